@@ -116,8 +116,8 @@ Definition run (s : sx) : sx :=
       judge cmp_seq (fun q => oTimeOps (TimeOps.stretch (xZ (a 3%nat)) (xZ (a 4%nat)) q)) base perms
   | 3 => (* shift: d *)
       judge cmp_seq (fun q => oTimeOps (TimeOps.shift (xZ (a 3%nat)) q)) base perms
-  | 4 => (* _extract_subsequences: split times *)
-      judge cmp_seqs (fun q => oExtract (Extract.extract_subsequences G02.DEFAULT_PRESERVE q (xZs (a 3%nat))))
+  | 4 => (* _extract_subsequences: split times, preserved control numbers *)
+      judge cmp_seqs (fun q => oExtract (Extract.extract_subsequences (xZs (a 4%nat)) q (xZs (a 3%nat))))
             base perms
   | 5 => (* split_note_sequence: hop skip *)
       judge cmp_seqs (fun q => oExtract (Split.split_hop q (xZ (a 3%nat)) (xB (a 4%nat)))) base perms
@@ -125,9 +125,9 @@ Definition run (s : sx) : sx :=
       judge cmp_seqs (fun q => oExtract (Split.split_time_changes q (xB (a 3%nat)))) base perms
   | 7 => (* split_note_sequence_on_silence: gap *)
       judge cmp_seqs (fun q => oExtract (Split.split_silence q (xZ (a 3%nat)))) base perms
-  | 8 => (* apply_sustain_control_changes *)
+  | 8 => (* apply_sustain_control_changes: sustain_control_number *)
       judge cmp_seq
-            (fun q => match Sustain.apply_sustain G14.SUSTAIN_CONTROL_NUMBER q with
+            (fun q => match Sustain.apply_sustain (xZ (a 3%nat)) q with
                       | Some r => oOk (oSeq r) | None => oErr 1 end) base perms
   | 9 => (* melody: search_start instrument gap_bars ignore_poly pad_end filter_drums *)
       let p := FqMelody.mkMelParams (xZ (a 3%nat)) (xZ (a 4%nat)) (xZ (a 5%nat)) (xB (a 6%nat))
@@ -154,5 +154,15 @@ Definition run (s : sx) : sx :=
       judge sx_eqb
             (fun q => oOk (L (map (fun e => L [I (fst e); I (snd e)])
                                   (FqPerformance.pf_from_quantized p (s_notes q))))) base perms
+  | 14 => (* split_note_sequence, list form: times skip *)
+      judge cmp_seqs (fun q => oExtract (Split.split_list q (xZs (a 3%nat)) (xB (a 4%nat)))) base perms
+  | 15 => (* extract_subsequence: start end preserved control numbers *)
+      judge cmp_seq
+            (fun q => match Extract.extract_subsequence (xZs (a 5%nat)) q (xZ (a 3%nat)) (xZ (a 4%nat)) with
+                      | Extract.Ok p => oOk (oSeq p) | Extract.Err _ => oErr 1 end) base perms
+  | 16 => (* trim_note_sequence: start end *)
+      judge cmp_seq
+            (fun q => match Extract.trim q (xZ (a 3%nat)) (xZ (a 4%nat)) with
+                      | Extract.Ok p => oOk (oSeq p) | Extract.Err _ => oErr 1 end) base perms
   | _ => oErr 0
   end.
